@@ -40,6 +40,12 @@ func (v *VerifRangeIterator) StartI() *big.Int { return v.it.startI }
 // SetI moves the iterator to an arbitrary point of its walk (the element after which Next continues).
 func (v *VerifRangeIterator) SetI(x *big.Int) { v.it.I.Set(x) }
 
+// SetStart makes x the element the walk starts from (and is at): any element of the range can be drawn as the start.
+func (v *VerifRangeIterator) SetStart(x *big.Int) {
+	v.it.startI.Set(x)
+	v.it.I.Set(x)
+}
+
 func VerifErrRangeSize() error { return errRangeSize }
 
 func VerifMergeErrChan(ctx context.Context, channels ...<-chan error) <-chan error {
